@@ -33,6 +33,12 @@ CHECKS = {
          "Translation validation: records are exactly the 16-byte chunks of reply bytes 45..len-4 (empty reply => empty set, no raise); every field of the k-th schedule denotes the reference extraction term of record k (id, recurrence, days via the C12 decoder, local HH:MM of LE32 start/end, duration and display wiring); identity is the slot id; the record create_schedule emits places days/start/end at the reader's offsets and widths with the inverse encoder (LE32, mktime vs localtime, '%H:%M', '00' for non-recurring). The zone/DST behaviour of mktime/localtime is not decided.", "§4 C10"),
  "C11": ("other", "normal forms of the clock encoder/decoder by abstract interpretation; clock-domain (LOCAL/UTC) tagging of library calls; format-directive agreement; whole-input validation rule",
          "Structural necessary conditions only: encoder = hex(LE32(int(mktime(strptime(today-local ++ HH:MM, same date directives ++ ' %H:%M'))))), decoder = strftime('%H:%M', localtime(LE32)), same width/byte order/format, inverse pair in the LOCAL domain with no UTC-domain API, malformed strings (incl. trailing components) raise. That localtime(mktime(t)) == t in every zone and on DST days is libc/tzdata behaviour and is NOT decided.", "§4 C11"),
+ "C07": ("other", "path/event analysis of datagram_received and the device builder; write-effect analysis (stores only on fresh objects); who-may-call sweep for transport close/abort; per-port protocol construction in start()",
+         "Structural necessary conditions only: exactly one synchronous hand-off per datagram and at most one callback per datagram; nothing on the receive path stores to anything that outlives the call (no dedupe, no poisoned flag); no transport close/abort/stop reachable from the receive callbacks and no handler around the hand-off; one protocol+transport per port bound to the user callback. Arrival order per port, independence across ports and exception isolation are properties of the kernel and the asyncio loop and are NOT decided.", "§4 C07"),
+ "C17": ("other", "path/event analysis of start/stop/__aenter__/__aexit__ with the port loop unrolled over symbolic ports; acquire/rollback pairing on exceptional exits; flag-writer sweep",
+         "Structural necessary conditions on all paths (0,1,2+ ports): every created endpoint is registered under its port and bound to it; stop looks up and closes every registered open transport and cannot raise; the running flag has exactly three writers, set last in start and never on a raising exit, cleared last in stop; a failing bind releases the transports acquired earlier; the context manager pairs start/stop and does not swallow exceptions. Socket release timing and callback quiescence after close() are asyncio behaviour (trusted).", "§4 C17"),
+ "C18": ("other", "path/event analysis of connect/disconnect/__aenter__/__aexit__ on fresh and connected instances; flag-writer sweep",
+         "Structural necessary conditions on all paths: the connected flag is written only by __init__/connect/disconnect; connect sets it after the awaited open_connection returned and both streams are stored, never on the refused path; disconnect closes then awaits wait_closed before clearing it and touches nothing before any connect; context exit always disconnects and returns falsy; connect does not depend on earlier state (reconnectable). EOF at the peer and idempotence of close() are asyncio behaviour (trusted).", "§4 C18"),
 }
 CHECKS.update(_MORE) if False else None
 NOT_YET = {}
